@@ -58,6 +58,16 @@ CHECKS = {
          "Every generated operation's acceptance is predicted from (entity flag at creation, context kind); refusals must leave the dump unchanged, all other operations must succeed, and the stored flag of every entity must equal its creation flag after every transaction, including after updates that try to flip it from either context.",
          "Trusts the model; single store with the enforcement constraint plus a unique index.",
          "DESIGN.md §3 C16"),
+ "C07": (True, "fault_enumeration",
+         "property-based generation of transaction bodies (rapid) with exhaustive enumeration of failure kind x failure position x entry point per body; oracle = error reaches the caller, dump before == dump after, no callback after a barrier",
+         "For each generated (database, body) the runner enumerates 13 failure kinds (caller error, duplicate, empty value, missing fk target, two storage refusals, vetoes on create/update/delete incl. parent-store veto for a child op, child-store veto for a routed update and veto on a cascaded delete, pre-commit action error) at every position and through Db.Update, a nested Db.Update and Db.Batch; the rejected call and the transaction must return non-nil, the full dump must equal the baseline and no listener of any style, commit action or tx-complete listener may run; the unmodified body must then commit and match the model.",
+         "Failure kinds are the ones reachable without a hook below bbolt (no I/O fault injection). Bodies are sampled, kind x position per body is exhaustive.",
+         "DESIGN.md §3 C07"),
+ "C08": (True, "exploration",
+         "stateful property-based testing (rapid): expected event multiset derived from the model per transaction, compared for equality with the callbacks recorded from every listener registration style on parent and child stores",
+         "Every transaction of a generated history (committed, aborted, rejected; Update or Batch; operations routed through either store) is followed by a barrier; the multiset of (store, style, change type, id, delivered state) must equal the model-derived one, nothing may fire before the commit handler, commit actions run exactly once iff committed and tx-complete listeners exactly once per committed Db.Update.",
+         "Asynchronous callbacks are awaited with bounded polls (5-10 s ceilings); extended-store events for plain parents are not asserted.",
+         "DESIGN.md §3 C08"),
  "C10": (True, "exploration",
          "property-based testing and fuzzing: grammar sentences with free operand types, token-level mutants, bounded-exhaustive token strings, random runes, foreign-character injections (rapid); native coverage-guided go fuzzing in the thorough tier; oracle = recover-guarded totality + independent rejection rule",
          "Every generated input is pushed through ast.Parse (bolt and in-memory symbol tables), and every query that parses is evaluated through QueryIds, IterateIds, in-memory EvalBool, ValidateSymbolsArePublic and ObjectStore.QueryEntities over an empty store, all-null rows and a rich dataset, all under recover: a panic, or a result that is neither exactly a query nor exactly an error, is a violation. Independently of the parser, a well-typed sentence with one character that occurs in no lexer rule inserted at a token boundary must be rejected. All token strings of length <= 3 (quick) / <= 4 (thorough) over a 41-token alphabet are enumerated.",
